@@ -80,6 +80,21 @@ class Report:
         at the end unless a refuted obligation explains it."""
         self.deferred = getattr(self, "deferred", []) + [msg]
 
+    def names(self, f, *names):
+        """Rules that identify a local or parameter by its name call this first:
+        a renamed variable is a vanished anchor (analysis-broken), never a violation."""
+        have = set(p["name"] for p in f.params)
+        for e in f.all_elems():
+            if e.cls == "DeclStmt":
+                for d in e.decls or []:
+                    have.add(d["name"])
+        missing = [n for n in names if n not in have]
+        if missing:
+            self.defer_broken("%s no longer has the variable(s) %s the rule is anchored in (renamed?)" % (f.name, ", ".join(missing)))
+            self.renamed = getattr(self, "renamed", 0) + 1
+            return False
+        return True
+
     def add_stats(self, prog):
         s = prog.stats()
         self.configs.append(prog.config.name)
@@ -88,7 +103,7 @@ class Report:
 
     # -- finishing --------------------------------------------------------
     def finish(self):
-        if getattr(self, "deferred", None) and not self.viol:
+        if getattr(self, "deferred", None) and (not self.viol or getattr(self, "renamed", 0)):
             raise cdb.AnalysisBroken("; ".join(self.deferred))
         wall = time.time() - self.t0
         evdir = os.environ.get("VERIF_EVIDENCE_DIR") or os.path.join(VERIF, "evidence")
